@@ -10,5 +10,6 @@ Definition run_case (l : list Z) : list Z :=
   | 2 :: args => run_crc args
   | 3 :: args => run_validate args
   | 4 :: args => run_stream args
+  | 5 :: args => run_hb args
   | _ => [-1]
   end.
